@@ -111,14 +111,15 @@ def run_async(case):
     one = rnd.choice(list(nodes))
     settings.append((f"dict-only-{one}", {f: {k: (k == one) for k in nodes} for f in ("params", "rng", "inputs", "state", "output")}, None))
     rnd.shuffle(settings)
-    settings = [s for s in SETTINGS[:1]] + [s for s in settings if s[0] != "all"][: case.get("n_settings", 5)]
+    settings = [s for s in SETTINGS[:1]] + [s for s in settings if s[0] != "all"][: case.get("n_settings", 5)] + [SETTINGS[0]]
     base = None
     api = rnd.choice(["run", "step"])
-    for name, rec, maxrec in settings:
+    for si_, (name, rec, maxrec) in enumerate(settings):
+        n_run = n_steps + 2 * (si_ % 3)  # episodes of different length on the same object (stale per-episode record state would show)
         g.set_record_settings(max_records=400 if maxrec is None else maxrec, **rec)
         mon = D.Monitor(seed=case["spec_seed"] + len(name), p_sleep=0.15, max_sleep=0.002).install()
         try:
-            r = D.call_with_deadline(D.run_episode, 90, g, nodes, sup, gs0, api, n_steps, 21, None, 0.03, True, False)
+            r = D.call_with_deadline(D.run_episode, 90, g, nodes, sup, gs0, api, n_run, 21, None, 0.03, True, False)
         except D.Stall as e:
             items.append(dict(status="inconclusive", key=f"{dg}/{name}", nontrivial=False, note=f"stall: {e}"))
             break
@@ -142,7 +143,13 @@ def run_async(case):
             flags[n] = {f: (rec[f][n] if isinstance(rec[f], dict) else rec[f]) for f in ("rng", "inputs", "state", "output")}
         stats = Counter()
         if rec_np is not None:
-            V += rows_vs_trace(rec_np, tb, nodes, flags, stats, sup_name=sup.name, n_sup_exec=n_steps)
+            V += rows_vs_trace(rec_np, tb, nodes, flags, stats, sup_name=sup.name, n_sup_exec=n_run)
+            if name == "all":
+                # the message records must be those of THIS episode: consistent with the windows the recorded steps saw
+                from rexmon.monitors import c03
+
+                vv = c03.check_record(rec_np, nodes, {}, wall_clock=False, own_nonce=21)
+                V += [dict(clause="record_inconsistent_" + x["clause"], detail={k_: v_ for k_, v_ in x.items() if k_ != "clause"}) for x in vv[:2]]
             for n, nr in rec_np.nodes.items():
                 K = len(nr.steps.seq)
                 # optional fields are present iff requested
@@ -317,6 +324,48 @@ def run_comp(case):
             items.append(dict(status="violated", key=key, nontrivial=nontriv, witness=dict(mechanism=V[0]["clause"], violations=V[:4], flags=name, spec=spec, mode=mode, episode=e)))
         else:
             items.append(dict(status="held", key=key, nontrivial=nontriv))
+    # ---- reset/step driving with user-overridden supervisor steps while recording: the recorded output of an overridden step is the output passed in
+    try:
+        c1 = G.init_record(c0, params=True, rng=True, inputs=True, state=True, output=True)
+        W.trace_clear()
+        gs, ss = jax.jit(G.reset)(c1)
+        step_j = jax.jit(G.step)
+        sent = {}
+        kmax = min(N - 1, 6)
+        for i in range(kmax):
+            if rnd.random() < 0.5:
+                tr_ = sup.trace
+                sup.trace = "none"
+                try:
+                    new_ss, out = sup.step(ss)
+                finally:
+                    sup.trace = tr_
+                sent[int(onp.asarray(ss.seq))] = int(onp.uint32(out.h))
+                gs, ss = G.step(gs, new_ss, out)
+            else:
+                gs, ss = step_j(gs)
+        jax.block_until_ready(gs)
+        jax.effects_barrier()
+        tr = {(d["idx"], d["seq"]): d for d in W.decode_trace(W.trace_snapshot(), S.input_layout(nodes))}
+        rec = C.npz(gs.aux["record"])
+        V = []
+        so = rec.nodes[sup.name].steps.output
+        for k_, h_ in sent.items():
+            counters["overridden_outputs_checked"] += 1
+            if int(onp.uint32(so.h[k_])) != h_ or int(so.seq[k_]) != k_:
+                V.append(dict(clause="overridden_step_output_not_recorded", step=k_, recorded_h=int(onp.uint32(so.h[k_])), sent_h=h_, recorded_seq=int(so.seq[k_])))
+        ex_rows = {(r["kind"], r["seq"]) for r in sched[e] if r["partition"] <= kmax and not (r["kind"] == sup.name and r["seq"] > kmax)} | {(sup.name, k_) for k_ in range(kmax + 1)}
+        flags = {n: {f: True for f in ("rng", "inputs", "state", "output")} for n in nodes}
+        stats = Counter()
+        V += rows_vs_trace(rec, tr, nodes, flags, stats, executed_only=ex_rows, sup_name=sup.name, n_sup_exec=kmax)
+        counters.update(stats)
+        key = f"{dg}/{mode}/step-override"
+        if V:
+            items.append(dict(status="violated", key=key, nontrivial=True, witness=dict(mechanism=V[0]["clause"], violations=V[:4], spec=spec, mode=mode, episode=e, overridden=sorted(sent))))
+        else:
+            items.append(dict(status="held", key=key, nontrivial=bool(sent)))
+    except KeyError:
+        pass
     samples.append(dict(kind=case["kind"], spec_digest=dg, mode=mode, flagsets=[f[0] for f in flagsets], episode=e, partitions=n_part))
     return dict(items=items, counters=dict(counters), samples=samples)
 
